@@ -79,6 +79,8 @@ type caseT struct {
 	// Burst: all messages in flight to one replica are handed over back to back, its ready loop being the slow one (a
 	// snapshot and the appends behind it then reach the state machine in one Ready)
 	Burst bool `json:"burst,omitempty"`
+	// Opposite: every transition runs under the opposite of the default schedule (sim.oppositePick)
+	Opposite bool `json:"opposite_schedule,omitempty"`
 }
 
 var alphabet = []partlib.Op{
@@ -93,6 +95,9 @@ func (c caseT) String() string {
 	s := fmt.Sprintf("N=%d [", c.Nodes)
 	if c.Burst {
 		s = fmt.Sprintf("N=%d (messages in bursts) [", c.Nodes)
+	}
+	if c.Opposite {
+		s = fmt.Sprintf("N=%d (opposite schedule) [", c.Nodes)
 	}
 	for _, st := range c.History {
 		if st.Snapshot {
@@ -151,6 +156,7 @@ func runCase(c caseT) (durable int, key, desc string) {
 	burst = c.Burst
 	defer func() { burst = false }()
 	w := sim.NewWorld(c.Nodes, func(n *sim.Node) sim.App { return &partApp{partlib.NewReplica()} })
+	w.Opposite = c.Opposite
 	defer w.Close()
 	for i := 1; i <= c.Nodes; i++ {
 		w.Start(uint64(i))
@@ -400,6 +406,14 @@ func main() {
 						_, k, desc := runCase(c)
 						res.Cases++
 						report(c, k, desc)
+						if !cp.Fail && (cp.AtEnd || !cp.After) {
+							// the same crash point with every transition under the opposite of the default schedule
+							c.Opposite = true
+							_, k, desc := runCase(c)
+							res.Cases++
+							report(c, k, desc)
+							c.Opposite = false
+						}
 						if nodes == 3 && (cp.AtEnd || t == 2 && !cp.After && !cp.Fail) {
 							// the restarted replica catches up; once more with its messages arriving in bursts
 							c.Burst = true
